@@ -254,6 +254,11 @@ class Monitor:
             if not self.eq(lhs, rhs, scale):
                 self.bad("C01", f"{date.date()} node {n.name} ({type(n).__name__}): in {fmt(ins)} - out {fmt(outs)} = {fmt(lhs)} "
                                 f"!= change in what it stores {fmt(d_st)} + decayed {fmt(d_dc)}", known_c01(n, lhs, rhs))
+                if not any(x != 0 for x in bin_ + bout):
+                    # a node without boundary terms: what its arcs record as carried in and out is what its stores gained
+                    # and gave up (C04 seen from the node)
+                    self.bad("C04", f"{date.date()} node {n.name} ({type(n).__name__}): its arcs record {fmt(ins)} carried in and {fmt(outs)} "
+                                    f"carried out, its stores changed by {fmt(d_st)} (+ decayed {fmt(d_dc)})")
             tot_post = vadd(tot_post, st)
             tot_pre = vadd(tot_pre, pre_st)
             decw = vadd(decw, d_dc)
